@@ -244,6 +244,7 @@ def run_unit(unit, tier="quick", want_canary=True):
         classify(diags, fns, text.split("\n"), ill)
         newq = {}
         newinl = False
+        inl_round = set()
         for (line, msg, sl) in ill:
             for f in fns:
                 if f.kind == "body" and f.lost is None and f.body_lines[0] and any(l and f.body_lines[0] <= l <= f.body_lines[1] for l in [line] + sl):
@@ -252,8 +253,12 @@ def run_unit(unit, tier="quick", want_canary=True):
                     if mm and mm.group(1) not in inline.get(f.name, set()) and not mm.group(1).startswith("__"):
                         inline.setdefault(f.name, set()).add(mm.group(1))
                         newinl = True
+                        inl_round.add(f.name)
                     else:
                         newq.setdefault(f.name, f"real body ill-typed against the unit's stand-ins: {msg}")
+        for fname in inl_round:
+            # a function that gets something inlined this round is judged on its next splice, not on this round's other messages
+            newq.pop(fname, None)
         if (not newq and not newinl) or attempt == 5:
             break
         quarantine.update(newq)
